@@ -66,6 +66,20 @@ def replay(cases):
                 want = 1e300 if d[s][t] >= 1000000 else d[s][t]
                 if got != want:
                     viol.append(("prepared/" + sigbase, "prepared_shortest_distance(%d,%d) = %r on %s, specification %r" % (s, t, got, g, want), c))
+        # prepare(cut): the prepared table holds exactly the pairs within the cut-off, with their distances
+        for cut in CUTS:
+            if cut >= 999999:
+                continue
+            net4 = rc.build_network(n, g)
+            net4.prepare(cut=cut, verbose=False)
+            ncalls += 1
+            for s in range(n):
+                for t in range(n):
+                    has, got = bool(net4.has_prepared_shortest_distance(s, t)), net4.prepared_shortest_distance(s, t)
+                    within = d[s][t] <= cut
+                    if has != within or got != (d[s][t] if within else 1e300):
+                        viol.append(("prepared-cut/" + sigbase, "after prepare(cut=%s): has_prepared(%d,%d) = %r, prepared_shortest_distance = %r on %s, specification distance %r"
+                                     % (cut, s, t, has, got, g, d[s][t]), c))
         if sigbase != "plain" or any(d[s][t] >= 1000000 for s in range(n) for t in range(n)):
             nontriv.add(repr(g))
         if len(samples) < 2 and len(g) == 3:
